@@ -32,6 +32,14 @@ var c11Ops = []string{"mem-compressed", "mem-raw", "file-compressed", "file-raw"
 func init() {
 	Registry["C11"] = func() {
 		ev.Main("C11", "exploration", 300*time.Second, 40*time.Minute, c11Body, func(c *ev.Ctx, raw json.RawMessage) {
+			if bytes.Contains(raw, []byte("failing_write_call")) {
+				var f c11Fault
+				if err := json.Unmarshal(raw, &f); err != nil {
+					c.HarnessError("%v", err)
+				}
+				c11ReplayFault(c, &f)
+				return
+			}
 			var cs c11Case
 			if err := json.Unmarshal(raw, &cs); err != nil {
 				c.HarnessError("%v", err)
@@ -317,6 +325,9 @@ func c11Body(c *ev.Ctx) {
 		}(i)
 	}
 	wg2.Wait()
+	if !c.Expired() && c.NViolations() == 0 {
+		c11WriteFaults(c, quick)
+	}
 	if int(done) < len(cases) {
 		c.Cap(fmt.Sprintf("%d of %d chains", done, len(cases)))
 	} else {
@@ -331,6 +342,6 @@ func c11Body(c *ev.Ctx) {
 	c.Set("proofs_generated", st.proofs)
 	c.Set("cross_verifications", st.crossVerifies)
 	c.Set("independent_setup_rejects_foreign_proof", st.foreignRejected)
-	c.Set("rule", "chains of length <=2 (<=3 thorough) over {write compressed, write raw} x {in memory + UnsafeReadFrom, file + ReadSystemFromFile} and the CLI convert-to-raw (to another file, in place, and onto an existing output file), from a fresh setup of each mode at dims with depth != batch, plus short chains at extreme dimensions (insertion depth 32, a padded deletion batch of 3 on a 2-leaf tree); every reached system must have equal dimensions, re-serialise to the same bytes as the original, prove a valid batch that the original verifies and verify the original's proof; distinct = chains whose end state passed all comparisons")
+	c.Set("rule", "chains of length <=2 (<=3 thorough) over {write compressed, write raw} x {in memory + UnsafeReadFrom, file + ReadSystemFromFile} and the CLI convert-to-raw (to another file, in place, and onto an existing output file), from a fresh setup of each mode at dims with depth != batch, plus short chains at extreme dimensions (insertion depth 32, a padded deletion batch of 3 on a 2-leaf tree); then write-fault enumeration (every Write call of the serialisation of a small system, structural calls of a real one, failing once / short / for ever: the writer must report an error or have written the complete file; CLI output on a full device); every reached system must have equal dimensions, re-serialise to the same bytes as the original, prove a valid batch that the original verifies and verify the original's proof; distinct = chains whose end state passed all comparisons")
 	c.Assume("byte-equality of the raw re-serialisation stands for equality of proving key, verifying key and constraint system")
 }
